@@ -338,7 +338,32 @@ func dispatch(op string, a []string) string {
 		r := ranges.NewInclusiveRange(argz(a[0]), argz(a[1]), argz(a[2]))
 		rs := &ranges.InclusiveRanges{}
 		rs.Append(argz(a[0]), argz(a[1]), argz(a[2]))
-		return fmt.Sprintf("OK rend=%d", r.End()) + probeRanges(rs)
+		// the single range's own accessors, asked directly
+		var rb strings.Builder
+		n := r.Len()
+		fmt.Fprintf(&rb, "OK rend=%d rlen=%d rmin=%d rmax=%d", r.End(), n, r.Min(), r.Max())
+		if n >= 0 && n < 1<<20 {
+			fmt.Fprintf(&rb, " riter=%s", zlist(iterAll(r.IterValues())))
+			var vs []string
+			for i := -2; i < n+3; i++ {
+				v, err := r.Value(i)
+				if err != nil {
+					vs = append(vs, "E")
+				} else {
+					vs = append(vs, strconv.Itoa(v))
+				}
+			}
+			fmt.Fprintf(&rb, " rvalue=%s", strings.Join(vs, ","))
+			mn, mx := r.Min(), r.Max()
+			var idx []int
+			var hs strings.Builder
+			for v := mn - 2; v < mx+3; v++ {
+				idx = append(idx, r.Index(v))
+				hs.WriteString(b01(r.Contains(v)))
+			}
+			fmt.Fprintf(&rb, " rindex=%s rhas=%s", zlist(idx), hs.String())
+		}
+		return rb.String() + probeRanges(rs)
 	case "rs":
 		rs := &ranges.InclusiveRanges{}
 		for _, t := range a {
@@ -381,6 +406,24 @@ func dispatch(op string, a []string) string {
 		fmt.Fprintf(&b, " index=%s has=%s", zlist(idx), hs.String())
 		return b.String()
 	case "big":
+		// a deadline per case: an implementation that enumerates a 10^12-frame range must show up
+		// as a timed-out case, not hang the check (the abandoned goroutine is left behind)
+		done := make(chan string, 1)
+		go func() {
+			defer func() {
+				if r := recover(); r != nil {
+					done <- "PANIC"
+				}
+			}()
+			done <- bigOp(a)
+		}()
+		select {
+		case r := <-done:
+			return r
+		case <-time.After(4 * time.Second):
+			return "TIMEOUT M_alloc=0 M_us=4000000"
+		}
+	case "bigX":
 		var ms0, ms1 runtime.MemStats
 		runtime.GC()
 		runtime.ReadMemStats(&ms0)
@@ -554,6 +597,8 @@ func dispatch(op string, a []string) string {
 	}
 	return "BADOP"
 }
+
+func bigOp(a []string) string { return dispatch("bigX", a) }
 
 func safeDispatch(op string, a []string) (out string) {
 	defer func() {
